@@ -126,7 +126,7 @@ def check_send_helpers(ctx):
         # the built message (not some other) is what is sent
         sm = next(c for c in calls_in(f.node) if call_name(c) == "self.send_message")
         msg_vars = {t.id for st in rules.func_stmts(f.node) if isinstance(st, ast.Assign) and h in calls_in(st.value) for t in st.targets if isinstance(t, ast.Name)}
-        ok = bool(sm.args) and (norm(sm.args[0]) in msg_vars or h in calls_in(sm.args[0]))
+        ok = bool(sm.args) and (norm(sm.args[0]) in msg_vars or h in calls_in(sm.args[0]) or (call_name(h) + "(") in rules.expand(f.node, sm.args[0]))
         ctx.ob("C05.P1", f.qualname, ok, "the sent message is the one built from the header" if ok else f"send_message({norm(sm.args[0]) if sm.args else ''}) does not send the built message", key="sends-built", where=f.where)
     # reject header: (system, 0xFFFF, s_type.value, reason, ..., REJECT_REQ)
     st, sup = _stype_of_header_class(repo, "HsmsRejectReqHeader")
@@ -263,8 +263,9 @@ def _routing_nodes(cfg):
 
 def _check_response_handler(ctx, cg, h, rsp):
     q = h.qualname
-    cfg = cfg_of(h.node)
-    param = h.node.args.args[1].arg
+    hn = inline.expanded(ctx, h)  # a shared "hand over to the waiting sender" helper is part of the handler
+    cfg = cfg_of(hn)
+    param = hn.args.args[1].arg
     routes = _routing_nodes(cfg)
     ok = len(routes) == 1
     ctx.ob("C05.P1", q, ok, f"{rsp} is routed to the requester waiting for its system bytes" if ok else f"{rsp}: {len(routes)} routing statements (expected one)", key="routes", where=h.where)
